@@ -81,7 +81,7 @@ def cli_fallback(smt, timeout_s):
 
 
 def discharge(obls, timeout_ms=20000, jobs=None, fallback=True):
-    jobs = jobs or min(16, os.cpu_count() or 4)
+    jobs = jobs or int(os.environ.get("PYVC_JOBS", min(16, os.cpu_count() or 4)))
     work = []
     for i, ob in enumerate(obls):
         work.append(("%d" % i, to_smt2(ob), min(timeout_ms, 3000) if ob.kind == "canary" else timeout_ms, ob.kind != "canary"))
